@@ -6,6 +6,7 @@ import itertools
 import logging
 import math
 import numbers
+from fractions import Fraction
 from functools import reduce
 from itertools import chain, product
 
@@ -2838,8 +2839,10 @@ class StridedInterval:
             assert b != 0
             assert a != 0
 
-            t0 = (-c * x0) / float(b)
-            t1 = (c * y0) / float(a)
+            # exact rationals: the products have up to twice the width of the intervals, far beyond what a float
+            # holds, and a bound for t that is off by one already selects another solution (or none)
+            t0 = Fraction(-c * x0, b)
+            t1 = Fraction(c * y0, a)
             # direction of the disequation depends on b and a sign
             t0_dir = "<=" if b < 0 else ">="
             t1_dir = ">=" if a < 0 else "<="
